@@ -14,6 +14,7 @@ import (
 	"runtime"
 	"runtime/debug"
 	"strings"
+	"syscall"
 	"testing"
 	"time"
 
@@ -28,6 +29,8 @@ type c06uConn struct {
 	tcp   bool
 	reply []byte
 	rd    *bytes.Reader
+	// fail, if set, is what every Read returns.
+	fail error
 }
 
 func (c *c06uConn) Write(p []byte) (int, error) {
@@ -44,6 +47,9 @@ func (c *c06uConn) Write(p []byte) (int, error) {
 }
 
 func (c *c06uConn) Read(p []byte) (int, error) {
+	if c.fail != nil {
+		return 0, c.fail
+	}
 	if c.rd == nil {
 		return 0, io.EOF
 	}
@@ -183,6 +189,82 @@ func TestVerifC06Upstream(t *testing.T) {
 
 		return nil
 	})
+	// Network "any": UDP first, TCP when the UDP reply is truncated or not a
+	// valid reply to this query.  Every combination of what the UDP socket
+	// delivers (among them a datagram that answers an EARLIER query of another
+	// client, as a reused socket can deliver) and of how the TCP fall-back ends.
+	// Whatever happens, a message that Exchange returns answers this query.
+	udpKinds := []string{"valid", "valid-tc", "stale-reply-of-other-client", "wrong-id", "wrong-question", "junk"}
+	tcpKinds := []string{"valid", "dial-refused", "eof", "reset", "stale-reply-of-other-client"}
+	vrt.Part(r, "upstream-any", func(emit func(c06aCase)) {
+		for _, u := range udpKinds {
+			for _, tk := range tcpKinds {
+				emit(c06aCase{UDP: u, TCP: tk})
+			}
+		}
+	}, func(c c06aCase) []vrt.Finding {
+		const victim = "secret.client-a.example."
+		mk := func(kind string) []byte {
+			switch kind {
+			case "valid":
+				return c06uReply(probeName, 0x7777, "198.51.100.1")
+			case "valid-tc":
+				m := &dns.Msg{}
+				_ = m.Unpack(c06uReply(probeName, 0x7777, "198.51.100.1"))
+				m.Truncated = true
+				b, _ := m.Pack()
+
+				return b
+			case "stale-reply-of-other-client":
+				return c06uReply(victim, 0x1111, "203.0.113.7")
+			case "wrong-id":
+				return c06uReply(probeName, 0x7778, "198.51.100.1")
+			case "wrong-question":
+				return c06uReply(victim, 0x7777, "203.0.113.7")
+			default:
+				return []byte{1, 2, 3}
+			}
+		}
+		u := NewUpstreamPlain(&UpstreamPlainConfig{Network: NetworkAny, Address: netip.MustParseAddrPort("192.0.2.53:53"), Timeout: time.Second})
+		u.connsPoolUDP = pool.NewPool(4, func(_ context.Context) (net.Conn, error) {
+			return &c06uConn{reply: mk(c.UDP)}, nil
+		})
+		u.connsPoolTCP = pool.NewPool(4, func(_ context.Context) (net.Conn, error) {
+			switch c.TCP {
+			case "dial-refused":
+				return nil, &net.OpError{Op: "dial", Net: "tcp", Err: os.NewSyscallError("connect", syscall.ECONNREFUSED)}
+			case "eof":
+				return &c06uConn{tcp: true, fail: io.EOF}, nil
+			case "reset":
+				return &c06uConn{tcp: true, fail: &net.OpError{Op: "read", Net: "tcp", Err: os.NewSyscallError("read", syscall.ECONNRESET)}}, nil
+			}
+
+			return &c06uConn{tcp: true, reply: mk(c.TCP)}, nil
+		})
+		req := &dns.Msg{}
+		req.SetQuestion(probeName, dns.TypeA)
+		req.Id = 0x7777
+		resp, _, err := u.Exchange(context.Background(), req)
+		r.Trans(1)
+		if err != nil || resp == nil {
+			r.Class("upstream-any error")
+			r.State("any err " + c.UDP + c.TCP)
+
+			return nil
+		}
+		r.Class("upstream-any answered")
+		r.State("any ok " + c.UDP + c.TCP)
+		if resp.Id != req.Id || len(resp.Question) != 1 || !strings.EqualFold(resp.Question[0].Name, probeName) || resp.Question[0].Qtype != dns.TypeA {
+			return vrt.F("upstream-any/returned-message-answers-another-query", "UDP socket delivers %q, TCP fall-back ends with %q: Exchange returned without an error a message with id %#x for %v (query: id %#x %s A): %s", c.UDP, c.TCP, resp.Id, resp.Question, req.Id, probeName, strings.Join(strings.Fields(resp.String()), " "))
+		}
+
+		return nil
+	})
 	r.Finish()
 	os.Exit(0)
+}
+
+type c06aCase struct {
+	UDP string `json:"udp_socket_delivers"`
+	TCP string `json:"tcp_fallback"`
 }
